@@ -604,7 +604,28 @@ def run(ctx):
         p["sessions"] = [{"overwrite": False, "cache_only": False, "hash_method": "b", "split": True,
                           "kind": "hyper", "slicing": False, "repeats": 2, "queries": [0, 1], "fresh": False,
                           "call": "search"}]
-    hists = probes + hists
+    # classes that are always part of the quick tier (each caught an independent red-team change):
+    #  - flat layout on disk + reload in a fresh process (DiskDict.__getitem__ with a plain string key),
+    #  - ReusableRandomGreedyOptimizer serving several different contractions from one object
+    #    (the sub-optimizer must not be reused across contractions), in memory and on disk
+    cpool = [([("a", "b"), ("b", "c"), ("c", "d")], ("a", "d"), {"a": 2, "b": 3, "c": 4, "d": 2}),
+             ([("a", "b", "c"), ("c", "d"), ("d", "e"), ("e", "b"), ("a",)], (), {"a": 2, "b": 2, "c": 3, "d": 2, "e": 3}),
+             ([("x", "y"), ("y", "z")], ("x", "z"), {"x": 3, "y": 2, "z": 2}),
+             ([("a", "b"), ("b", "c"), ("c", "d"), ("d", "e"), ("e", "f"), ("f", "a")], (), {k: 2 for k in "abcdef"})]
+
+    def csess(kind, split, queries, fresh=False, cache_only=False, overwrite=False, call="search"):
+        return {"overwrite": overwrite, "cache_only": cache_only, "hash_method": "a", "split": split, "kind": kind,
+                "slicing": False, "repeats": 3, "queries": queries, "fresh": fresh, "call": call}
+    classes = []
+    for kind in ("hyper", "rgreedy"):
+        for usedir, split in ((True, False), (True, True), (False, True)):
+            ss = [csess(kind, split, [0, 1, 2, 3, 1, 0]),
+                  csess(kind, split, [3, 2, 1, 0], fresh=usedir),
+                  csess(kind, "auto" if usedir else split, [1, 3], fresh=usedir, cache_only=usedir),
+                  csess(kind, split, [2, 0, 3], overwrite="improved", call="call")]
+            classes.append({"dir": usedir, "tags": ["class_%s_%s" % (kind, "flat" if not split else "split")] * 4,
+                            "pool": [(list(i), o, dict(sd)) for i, o, sd in cpool], "sessions": ss})
+    hists = probes + classes + hists
     ctx.log("running %d histories through the real optimizers" % len(hists))
     reals = run_workers(ctx, hists)
 
